@@ -580,7 +580,7 @@ func c09Connectives(r *core.Run, p *core.Prog) {
 					case litType(rs.Results[0]) != "":
 						out = append(out, ev{label: "ret:" + litType(rs.Results[0])})
 					case caseVar != nil && core.ObjOf(info, rs.Results[0]) == caseVar:
-						out = append(out, ev{label: "ret:unchanged"})
+						out = append(out, ev{label: "ret:casevar"})
 					default:
 						if _, isCall := ast.Unparen(rs.Results[0]).(*ast.CallExpr); isCall {
 							out = append(out, ev{label: "ret:call"})
@@ -629,15 +629,18 @@ func c09Connectives(r *core.Run, p *core.Prog) {
 						bad = "a not-node must be replaced by its child normalised with the flipped negation flag: " + pl
 					}
 				case "conditionNode":
+					// the by-value copy of the leaf is "unchanged" only if its comparator was not assigned on the path
+					unchanged := t.has("ret:casevar") && !t.has("set-comparator")
+					_ = unchanged
 					switch {
 					case t.has("plain"):
 						nPlain++
-						if !t.has("ret:unchanged") || t.has("set-comparator") {
+						if !unchanged {
 							bad = "a leaf that is not negated must be returned unchanged: " + pl
 						}
 					case t.has("neg"):
 						nNeg++
-						if !t.has("transform") || !t.has("set-comparator") || t.has("ret:unchanged") {
+						if !t.has("transform") || !t.has("set-comparator") || unchanged {
 							bad = "a negated leaf must get the complement comparator (transformComparator): " + pl
 						}
 					default:
